@@ -2,6 +2,7 @@ package cseval
 
 import (
 	"fmt"
+	"math"
 	"math/big"
 	"reflect"
 
@@ -33,6 +34,23 @@ type Program struct {
 	Levels [][]int
 	// kinds present
 	HasHint, HasLookup, HasSpecialised bool
+}
+
+// wireOf maps the constant marker (VID = MaxUint32) to wire -1.
+func wireOf(vid uint32) int {
+	if vid == math.MaxUint32 {
+		return -1
+	}
+	return int(vid)
+}
+
+func addWires(dst []int, ts []Term) []int {
+	for _, t := range ts {
+		if t.Wire >= 0 {
+			dst = append(dst, t.Wire)
+		}
+	}
+	return dst
 }
 
 func coreSystem(cs any) (*constraint.System, error) {
@@ -81,7 +99,7 @@ func decodeProgram[E constraint.Element](cs constraint.ConstraintSystemGeneric[E
 			if int(t.CID) >= len(table) {
 				return nil, fmt.Errorf("coefficient id %d outside table", t.CID)
 			}
-			ts = append(ts, Term{Wire: int(t.VID), Coeff: table[t.CID]})
+			ts = append(ts, Term{Wire: wireOf(t.VID), Coeff: table[t.CID]})
 		}
 		return ts, nil
 	}
@@ -94,7 +112,7 @@ func decodeProgram[E constraint.Element](cs constraint.ConstraintSystemGeneric[E
 			if int(cid) >= len(table) {
 				return nil, 0, fmt.Errorf("coefficient id %d outside table", cid)
 			}
-			ts = append(ts, Term{Wire: int(vid), Coeff: table[cid]})
+			ts = append(ts, Term{Wire: wireOf(vid), Coeff: table[cid]})
 		}
 		return ts, 1 + 2*n, nil
 	}
@@ -138,9 +156,7 @@ func decodeProgram[E constraint.Element](cs constraint.ConstraintSystemGeneric[E
 					return nil, err
 				}
 				in.HintIn = append(in.HintIn, ts)
-				for _, t := range ts {
-					in.Wires = append(in.Wires, t.Wire)
-				}
+				in.Wires = addWires(in.Wires, ts)
 			}
 			for w := in.OutFrom; w < in.OutFrom+in.OutN; w++ {
 				in.Wires = append(in.Wires, w)
@@ -157,9 +173,7 @@ func decodeProgram[E constraint.Element](cs constraint.ConstraintSystemGeneric[E
 				}
 				off += d
 				in.Entries = append(in.Entries, ts)
-				for _, t := range ts {
-					in.Wires = append(in.Wires, t.Wire)
-				}
+				in.Wires = addWires(in.Wires, ts)
 			}
 			off = 3
 			for k := 0; k < nbQ; k++ {
@@ -169,9 +183,7 @@ func decodeProgram[E constraint.Element](cs constraint.ConstraintSystemGeneric[E
 				}
 				off += d
 				in.Queries = append(in.Queries, ts)
-				for _, t := range ts {
-					in.Wires = append(in.Wires, t.Wire)
-				}
+				in.Wires = addWires(in.Wires, ts)
 			}
 			in.OutFrom, in.OutN = int(inst.WireOffset), nbQ
 			for w := in.OutFrom; w < in.OutFrom+in.OutN; w++ {
@@ -323,6 +335,10 @@ func (p *Program) Replay(witness []*big.Int, hints HintFn) ([]*big.Int, error) {
 		unkWire = -1
 		unkCoeff = new(big.Int)
 		for _, t := range ts {
+			if t.Wire < 0 { // constant term
+				known.Add(known, t.Coeff)
+				continue
+			}
 			if solved[t.Wire] {
 				known.Add(known, new(big.Int).Mul(t.Coeff, w[t.Wire]))
 				continue
